@@ -159,17 +159,17 @@ func learnAutoPIDs(out []byte, streams []*hStream) {
 
 // HistOpts tunes RandomHistory.
 type HistOpts struct {
-	MaxOps        int
-	AllowPacket   bool
-	AllowInvalid  bool
-	AutoPIDs      bool
-	BigAF         bool // adaptation fields that leave no room for the PES header
-	LongPayloads  bool
-	OversizePMT   bool
-	ManyPackets   bool // ≥40 packets per PID (continuity counter wrap)
-	RichHeaders   bool
-	FewPIDs       bool
-	WritePktPIDs  []uint16
+	MaxOps       int
+	AllowPacket  bool
+	AllowInvalid bool
+	AutoPIDs     bool
+	BigAF        bool // adaptation fields that leave no room for the PES header
+	LongPayloads bool
+	OversizePMT  bool
+	ManyPackets  bool // ≥40 packets per PID (continuity counter wrap)
+	RichHeaders  bool
+	FewPIDs      bool
+	WritePktPIDs []uint16
 }
 
 var esPIDPool = []uint16{0x20, 0x21, 0x40, 0x41, 0x42, 0x2fa, 0x1ffe, 0x0fff, 0x1001, 0x0800} // disjoint from the automatic range 0x100.. so that the model can attribute PIDs before it has seen a PMT
@@ -419,4 +419,28 @@ func randomDataOp(r *rand.Rand, pid uint16, auto bool, slot int, o HistOpts) HOp
 		}
 	}
 	return HOp{Kind: "data", PID: pid, Auto: auto, Slot: slot, Data: d}
+}
+
+// readdAutoScenario: an explicit PID in the automatic range is written, removed, and handed out again by automatic assignment.
+func readdAutoScenario(r *rand.Rand) []HOp {
+	mk := func(pid uint16, auto bool, slot int) HOp {
+		return HOp{Kind: "data", PID: pid, Auto: auto, Slot: slot, Data: &astits.MuxerData{PES: &astits.PESData{Header: &astits.PESHeader{StreamID: 0xC0, OptionalHeader: &astits.PESOptionalHeader{MarkerBits: 2}}, Data: gen.Bytes(r, 1+r.IntN(900))}}}
+	}
+	first := uint16(0x100) // the first candidate of the automatic range
+	nAutoBefore := r.IntN(3)
+	var ops []HOp
+	for k := 0; k < nAutoBefore; k++ {
+		ops = append(ops, HOp{Kind: "add", PID: 0, Auto: true, Slot: k, ES: &astits.PMTElementaryStream{StreamType: astits.StreamTypeMPEG2Audio}})
+		first++
+	}
+	ops = append(ops, HOp{Kind: "add", PID: first, ES: &astits.PMTElementaryStream{StreamType: astits.StreamTypeAACAudio}, Slot: -1},
+		HOp{Kind: "add", PID: 0x40, ES: &astits.PMTElementaryStream{StreamType: astits.StreamTypeH264Video}, Slot: -1}, HOp{Kind: "pcr", PID: 0x40}, HOp{Kind: "tables"})
+	for k := 0; k < 1+r.IntN(4); k++ {
+		ops = append(ops, mk(first, false, 0))
+	}
+	ops = append(ops, HOp{Kind: "remove", PID: first}, HOp{Kind: "add", PID: 0, Auto: true, Slot: 10, ES: &astits.PMTElementaryStream{StreamType: astits.StreamTypeMPEG1Audio}}, HOp{Kind: "tables"})
+	for k := 0; k < 1+r.IntN(4); k++ {
+		ops = append(ops, mk(0, true, 10))
+	}
+	return ops
 }
